@@ -114,6 +114,9 @@ def _wrap(arr, container, unit=None):
     return arr.copy(), None
 
 
+_depth = [0]
+
+
 def _snap(o):
     """Deep, comparable snapshot of an argument."""
     import astropy.units as u
@@ -139,7 +142,25 @@ def _snap(o):
         return ('ap', repr(o))
     if hasattr(o, 'data') and hasattr(o, 'labels'):   # SegmentationImage
         return ('seg', _snap(np.asarray(o.data)))
-    return ('o', repr(o))
+    if hasattr(o, '__dict__') and not isinstance(o, type) and _depth[0] < 2:
+        # helper objects handed to a call (finders, groupers, estimators,
+        # sigma clips, interpolators): their public configuration
+        _depth[0] += 1
+        try:
+            pub = {}
+            for k in sorted(vars(o)):
+                if k.startswith('_'):
+                    continue
+                v = getattr(o, k, None)
+                if callable(v) and not hasattr(v, '__dict__'):
+                    continue
+                pub[k] = _snap(v)
+            return ('obj', type(o).__name__, pub)
+        finally:
+            _depth[0] -= 1
+    if isinstance(o, (int, float, str, bool, tuple, type(None), np.generic)):
+        return ('v', o)
+    return ('o', type(o).__name__)
 
 
 def _same(a, b):
@@ -203,9 +224,10 @@ def _entries():
 
     def e_aperstats(i):
         ap = CircularAperture(POS, 3.5)
-        i['extra'] = [ap]
+        sc = SigmaClip(3.0)
+        i['extra'] = [ap, sc]
         st = ApertureStats(i['data'], ap, error=i['error'], mask=i['mask'],
-                           sigma_clip=SigmaClip(3.0), local_bkg=0.1 if not
+                           sigma_clip=sc, local_bkg=0.1 if not
                            hasattr(i['data'], 'unit') else 0.1 * i[
                                'data'].unit)
         st.to_table(st.properties)
@@ -217,9 +239,18 @@ def _entries():
             cov = np.zeros(i['mask'].shape, bool)
             cov[:, :3] = True
             i['extra'] = [cov]
+        from photutils.background import (BkgZoomInterpolator,
+                                          MADStdBackgroundRMS,
+                                          MMMBackground)
+        helpers = [SigmaClip(3.0, maxiters=5), MMMBackground(),
+                   MADStdBackgroundRMS(), BkgZoomInterpolator()]
+        i['extra'] = i.get('extra', []) + helpers
         b = Background2D(i['data'], i['box'], mask=i['mask'],
                          coverage_mask=cov, filter_size=3,
-                         exclude_percentile=40.0)
+                         exclude_percentile=40.0, sigma_clip=helpers[0],
+                         bkg_estimator=helpers[1],
+                         bkgrms_estimator=helpers[2],
+                         interpolator=helpers[3])
         for a in ('background', 'background_rms', 'background_mesh',
                   'background_rms_mesh', 'background_median',
                   'background_rms_median', 'npixels_mesh', 'npixels_map'):
@@ -347,9 +378,10 @@ def _entries():
 
     def e_psf(i):
         model, init = _psf_inputs(i)
-        ph = PSFPhotometry(model, (5, 5), grouper=SourceGrouper(5),
-                           localbkg_estimator=LocalBackground(5, 8),
-                           aperture_radius=4)
+        grouper, lb = SourceGrouper(5), LocalBackground(5, 8)
+        i['extra'] = i['extra'] + [grouper, lb]
+        ph = PSFPhotometry(model, (5, 5), grouper=grouper,
+                           localbkg_estimator=lb, aperture_radius=4)
         ph(i['data'], mask=i['mask'], error=i['error'], init_params=init)
         ph.make_model_image(val(i['data']).shape, psf_shape=(9, 9))
         ph.make_residual_image(i['data'], psf_shape=(9, 9))
@@ -357,8 +389,9 @@ def _entries():
 
     def e_ipsf(i):
         model, init = _psf_inputs(i)
-        ph = IterativePSFPhotometry(model, (5, 5),
-                                    finder=DAOStarFinder(6.0, 3.6),
+        finder = DAOStarFinder(6.0, 3.6)
+        i['extra'] = i['extra'] + [finder]
+        ph = IterativePSFPhotometry(model, (5, 5), finder=finder,
                                     aperture_radius=4, maxiters=2)
         ph(i['data'], mask=i['mask'], error=i['error'], init_params=init)
     E['IterativePSFPhotometry'] = (('ndarray', 'view'), e_ipsf)
@@ -394,6 +427,7 @@ def _entries():
         import photutils.background as pb
         d = i['data']
         sc = SigmaClip(3.0)
+        i['extra'] = [sc]
         for name in ('MeanBackground', 'MedianBackground',
                      'ModeEstimatorBackground', 'MMMBackground',
                      'SExtractorBackground', 'BiweightLocationBackground',
@@ -421,9 +455,10 @@ def _entries():
             val(d).shape[1])[None, :]
         if hasattr(d, 'unit'):
             bk, er = bk * d.unit, er * d.unit
-        i['extra'] = [bk, er]
+        sc = SigmaClip(2.5)
+        i['extra'] = [bk, er, sc]
         detect_threshold(d, 2.5, background=bk, error=er, mask=i['mask'])
-        detect_threshold(d, 2.5, mask=i['mask'], sigma_clip=SigmaClip(2.5))
+        detect_threshold(d, 2.5, mask=i['mask'], sigma_clip=sc)
     E['detect_threshold'] = (('ndarray', 'view', 'quantity'), e_threshold)
 
     def e_dataprops(i):
